@@ -302,3 +302,45 @@ def m_time(ex, args, kw, st, fr, node):
     st.ghost.setdefault('$clock_reads', [])
     st.ghost['$clock_reads'] = st.ghost['$clock_reads'] + [now]
     return _out(st, now)
+
+
+# --------------------------------------------------------------------------
+# opt-in literals (Executor opts): `{}` as an empty SymDict, `[(a, b)] * n` (n symbolic) as a SymTupleList.
+# Installed as additional Executor methods so that pyvc/executor.py stays untouched.
+from .executor import Executor as _Executor
+
+_prev_e_dict = getattr(_Executor, 'e_Dict', None)
+
+
+def _e_dict(self, node, st, fr):
+    if not node.keys and self.opts.get('symdict_literals'):
+        o = make_symdict('dict@L%d' % node.lineno, st, empty=True)
+        st.fresh_objs.add(o.oid)
+        return [Outcome('normal', st, o)]
+    if _prev_e_dict is not None:
+        return _prev_e_dict(self, node, st, fr)
+    raise Unsupported('dict display at line %d' % node.lineno)
+
+
+_Executor.e_Dict = _e_dict
+
+_prev_binop = _Executor.binop
+
+
+def _binop(self, op, a, b, st, node):
+    import ast as _ast
+    if self.opts.get('symtuplelist_repeat') and isinstance(op, _ast.Mult) and isinstance(a, VList) and \
+            len(a.items) == 1 and isinstance(a.items[0], VTuple) and len(a.items[0].items) == 2 and \
+            isinstance(b, VInt) and b.concrete() is None:
+        # [(x, y)] * n: n cells, every id cell == x; the time column of never-written cells is left
+        # unconstrained (they hold y == None in Python; the verified operations read only cells written by
+        # a store -- part of the representation invariant)
+        n = VInt(z3.If(b.t < 0, 0, b.t))
+        o = make_symtuplelist('list@L%d' % getattr(node, 'lineno', 0), st, n=n)
+        st.fresh_objs.add(o.oid)
+        st.heap[(o.oid, 'ids')] = VTerm(z3.K(z3.IntSort(), key_val(a.items[0].items[0])))
+        return [Outcome('normal', st, o)]
+    return _prev_binop(self, op, a, b, st, node)
+
+
+_Executor.binop = _binop
